@@ -18,6 +18,7 @@ EXPLANATION = (
     "agreement); VarReindex maps a variable to the same fresh index on every occurrence and leaves None alone. Order independence of grounding "
     "itself is not decided."
     " Added after seed round 6: Q5 every self.ground call under an evidence label passes is_root=True (label read through locals; helper methods are followed)."
+    " Added after seed round 7: Q6 the four accessors of NestedDict derive one key path that ends in get_state(..), so the engine state is part of every table key."
 )
 TECHNIQUE = "static analysis: ownership rule (who may construct / hold the table) and writer/reader key agreement"
 LEVEL_TEXT = EXPLANATION
